@@ -108,6 +108,19 @@ def gen(tier, seed):
         for r in range(1 if tier == 'quick' else 4):
             sp = Spelling(mode='rand', seed=seed * 100 + bi * 10 + r)
             mods.append(mk(f'm{n:04d}', f'{tag}/spelling=random{r}', sp)); n += 1
+    # several traits' attributes on the same item: one #[educe(A, B)] list vs. separate attributes in every rotation
+    from . import p_c15
+    for ti, (name, primary, cands, mk) in enumerate(p_c15.templates()):
+        if tier == 'quick' and ti % 2 == 1:
+            continue
+        by = [c for c in cands if c not in primary and c not in ('Copy', 'Ord', 'Eq', 'DerefMut')][ti % 3:][:2]
+        if 'PartialOrd' in by and 'PartialEq' not in primary and 'PartialEq' not in by:
+            by = ['PartialEq'] + by
+        for k in range(4 if tier != 'quick' else 2):
+            sp = None if k == 0 else Spelling(force={'grouping': 1, 'traitorder': k})
+            m = mk(f'm{n:04d}', f'{name} + {{{", ".join(by)}}}/spelling=' + ('one list' if k == 0 else f'separate attributes, rotation {k}'), p_c15.make_xf(by, ti), sp)
+            if m is not None:
+                mods.append(m); n += 1
     return mods
 
 
